@@ -52,6 +52,19 @@ namespace occa {
 
     primitive binaryOpNode::evaluate() const {
       primitive pLeft  = leftValue->evaluate();
+      // && and || only evaluate the right operand if the left one
+      //   doesn't decide the result: 0 && (1 / 0), 1 || (1 / 0)
+      if (!pLeft.isNaN()) {
+        if (op.opType & operatorType::and_) {
+          if (!pLeft.to<bool>()) {
+            return primitive(false);
+          }
+        } else if (op.opType & operatorType::or_) {
+          if (pLeft.to<bool>()) {
+            return primitive(true);
+          }
+        }
+      }
       primitive pRight = rightValue->evaluate();
       return ((binaryOperator_t&) op)(pLeft, pRight);
     }
